@@ -147,6 +147,17 @@ impl Property for StoreProp {
                             }
                             ops.push(Op::S(p))
                         }
+                        11 if rng.chance(1, 2) => {
+                            // a batch through one replica handle: one author's entries in rising order of time,
+                            // all of them possibly older than what is already held
+                            let a = rng.below(3);
+                            let n = rng.below(2);
+                            let mut ts: Vec<u64> = (0..rng.range(2, 4)).map(|_| *rng.pick(&crate::c02::TIMES)).collect();
+                            ts.sort();
+                            let entries = ts.into_iter().enumerate().map(|(i, t)| (a, vec![0x62, i as u8, rng.below(3) as u8], Some(rng.below(3)), t)).collect();
+                            ops.push(Op::S(SOp::PutBatch { n, entries }));
+                            ops.push(Op::S(SOp::Observe { n }));
+                        }
                         11..=13 => {
                             let k = rng.range(1, 3);
                             ops.push(Op::S(SOp::HasNews {
